@@ -78,7 +78,7 @@ def through_predicates(model: Model, sites):
 def check_language(model: Model, run: Run) -> None:
     from .c15 import attribute_pattern_name
     pname = attribute_pattern_name(model)
-    sites = through_predicates(model, [s for s in find_sites(model) if s.module == FILTER and s.name == pname])
+    sites = through_predicates(model, [s for s in find_sites(model, (FILTER,)) if s.module == FILTER and s.name == pname])
     run.floor("attribute pattern use sites", len(sites), 3)
     known = [k for k in load_known("C15") if k["rule"] == "F4-attribute-language"]
     roles = {}
@@ -133,7 +133,7 @@ def valid_names_are_accepted(model: Model, run: Run, rule: str) -> None:
     are; a valid name the parser refuses is a filter whose text form does not parse back."""
     from .c15 import attribute_pattern_name
     pname = attribute_pattern_name(model)
-    sites = through_predicates(model, [s for s in find_sites(model) if s.module == FILTER and s.name == pname])
+    sites = through_predicates(model, [s for s in find_sites(model, (FILTER,)) if s.module == FILTER and s.name == pname])
     roles = {}
     for s in sites:
         roles.setdefault(site_role(model, s), []).append(s)
